@@ -250,6 +250,8 @@ let handle (req : json) : unit =
     | "nrs", [a; s] -> p_pair p_z (p_opt p_z) (next_ring_state (j_z a) (j_z s))
     | "enc", [t; s; strict; attr] ->
         p_res (p_pair p_str (p_list p_amap)) (encoder (j_table t) (j_str s) (j_bool strict) (j_bool attr))
+    | "enc_hyp", [t; s; attr; out] ->
+        p_pair p_bool p_bool (enc_hyp (j_table t) (j_str s) (j_bool attr) (j_str out))
     | "pm", [g] ->
         p_res (p_opt (p_list (p_opt p_nat))) (find_perfect_matching (j_list (j_list j_nat) g))
     | "greedy", [g] ->
